@@ -155,6 +155,18 @@ def once(rc):
             if isinstance(n, ast.Call) and isinstance(n.func, ast.Name) and n.func.id in ("set", "frozenset") and n.args and dotted(n.args[0]) in ("args", "factors"):
                 rc.fail(h, n, f"{name}: `{norm(n)}` merges equal factors (value-based hash/equality)", construct=f"{name} set of factors")
         rc.ob(f"{name}: no value-keyed container of its operands")
+    # generic: no value-keyed container of bare factors in any conversion / factor-bookkeeping method of the model classes
+    from . import shared as _sh
+    targets = []
+    for rel in (MN, FG, JT, CG):
+        for ci in repo.module(rel).classes.values():
+            for m in ci.methods.values():
+                if m.name in ("copy", "__init__"):
+                    continue
+                targets.append((rel, m.qual))
+    targets += [(BN, "BayesianNetwork.to_markov_model"), (BN, "BayesianNetwork.to_junction_tree")]
+    targets += [(FB, q) for q in ("factor_product", "factor_divide", "factor_sum_product") if q in repo.module(FB).functions]
+    _sh.value_keyed_factor_rule(rc, targets)
     # delegations
     for rel, q in ((BN, "BayesianNetwork.to_junction_tree"), (FG, "FactorGraph.to_junction_tree")):
         d = repo.func(rel, q)
